@@ -246,7 +246,12 @@ def main():
     # are permutations of one another from record to record (same total, other split)
     two_str = ("dataset", "ts0", (("seq", "q", (("base", "n", "i", (), ()), ("base", "s", "S", (), ()), ("base", "t", "S", (), ())),
                                    ((1, "ab", "abcdefg"), (2, "abcdefg", "ab"), (3, "", "wxyz"), (4, "wxyz", ""), (5, "abcde", "x"))),))
-    corpus = [(two_str, "numpy"), (two_str, "iterdata")]
+    # a rank-0 Byte next to an Int32 (no String, no Sequence: the response carries a Content-Length); a flat sequence with a String
+    # column before a Byte column
+    scalar_byte = ("dataset", "sb0", (("base", "b", "B", (), (200,)), ("base", "i", "i", (), (5,))))
+    str_byte = ("dataset", "sq0", (("seq", "q", (("base", "s", "S", (), ()), ("base", "b", "B", (), ()), ("base", "n", "i", (), ())),
+                                    (("ab", 7, 1), ("", 255, 2), ("abcde", 0, 3))),))
+    corpus = [(two_str, "numpy"), (two_str, "iterdata"), (scalar_byte, "numpy"), (str_byte, "numpy"), (str_byte, "iterdata")]
     for i in range(n + len(corpus)):
         desc = G.gen_dataset(rng)
         backend = rng.choice(["numpy", "numpy", "iterdata"])
